@@ -1,0 +1,8 @@
+//go:build !verif
+
+package server
+
+import "go.lsp.dev/protocol"
+
+// verifPublishPoint is a no-op outside verification builds (see verif_hooks.go).
+func verifPublishPoint(protocol.DocumentURI, string) {}
